@@ -54,7 +54,7 @@ func runC07(r *Run) {
 	r.rule("C07.R3", "injectivity guards: storing a key is dominated by !IsOperatorRemovingKeyFromChainID and !keyInUse(chain, the stored consensus address); the previous key is recorded only when none is recorded yet", 4)
 	r.rule("C07.R4", "reverse-lookup retention: DeleteOperatorAddressForChainIDAndConsAddr is called only from the dogfood pruning loop and from the hooks' arms where the key is not in the validator set", 3)
 	r.rule("C07.R5", "pruning schedule: a replaced key that is in the validator set is queued at GetUnbondingCompletionEpoch; an opt-out of an active key registers the opt-out information", 2)
-	r.rule("C07.R6", "slash, jail and validator lookup by consensus address resolve the operator through the reverse lookup", 4)
+	r.rule("C07.R6", "slash, jail and validator lookup by consensus address resolve the operator through the reverse lookup", 5)
 	r.rule("C07.R7", "every chain-id argument handed to the operator keeper from the dogfood module derives from ChainIDWithoutRevision (or is a hook parameter)", 8)
 
 	names := []string{"BytePrefixForOperatorAndChainIDToConsKey", "BytePrefixForOperatorAndChainIDToPrevConsKey", "BytePrefixForChainIDAndOperatorToConsKey", "BytePrefixForChainIDAndConsKeyToOperator", "BytePrefixForOperatorKeyRemovalForChainID"}
@@ -304,6 +304,16 @@ func runC07(r *Run) {
 					}
 				}
 				r.check(ok, "C07.R6", "dogfood|slash-by-lookup", v.pos(c), "the slashed operator is the one found by the reverse lookup", "dogfood slashes without resolving the consensus address through the reverse lookup")
+				// ... and the reverse lookup is the only gate: a key that left the validator set (replaced, or its
+				// operator opted out) stays slashable for as long as the lookup record is retained
+				var extra []string
+				for _, ft := range v.factsAt(c, false) {
+					if o := v.outcome(ft); o != nil && o.Callee.Name() == "GetOperatorAddressForChainIDAndConsAddr" {
+						continue
+					}
+					extra = append(extra, exprString(ft.Atom))
+				}
+				r.check(len(extra) == 0, "C07.R6", "dogfood|slash-only-gated-by-lookup", v.pos(c), "every consensus address that still resolves is slashable (no current-validator test)", "the slash is additionally conditioned on "+strings.Join(extra, ", ")+": a replaced or opted-out key can no longer be slashed although its lookup record is kept for that purpose")
 			}
 		} else {
 			r.bad("C07.R6", "dogfood|slash-by-lookup", "-", "anchor", nm+" not found")
